@@ -623,10 +623,48 @@ pub fn run(ctx: &Ctx) -> Report {
         base += n_h;
     }
 
+    // (I) a parameter is split at its FIRST '=': values that contain literal, unescaped '=' (base64 padding, k=v filters),
+    //     in the URL and in a folded form body, on both carriers -- the same logical request as the escaped spelling
+    {
+        let values: Vec<&str> = vec!["YWJjZA==", "a=b", "=", "==", "=x", "x=", "a=b=c=d", "%3D=", "k=v", "a=%3D", "==="];
+        let n_i = (values.len() * 2 * 2 * 2) as u64;
+        let base_i = base;
+        let st_i = par_sweep(n_i, |i, st| {
+            let mut x = i as usize;
+            let carrier = if x % 2 == 0 { Carrier::Header } else { Carrier::Query };
+            x /= 2;
+            let in_body = x % 2 == 1;
+            x /= 2;
+            let literal = x % 2 == 0;
+            x /= 2;
+            let v = values[x];
+            let logical_v: Vec<u8> = refmodel::pct::decode(v.as_bytes(), true).unwrap_or_else(|_| v.as_bytes().to_vec());
+            let params = vec![(b"marker".to_vec(), logical_v.clone()), (b"z".to_vec(), b"1".to_vec())];
+            let spelled = if literal { format!("marker={}&z=1", v) } else { refmodel::sign::spell_query(&params) };
+            let mut plan = e2e::base_plan(carrier);
+            let mut cfg = cfg_for(now, false, in_body);
+            if in_body {
+                plan.method = "POST".into();
+                plan.headers.push(("Content-Type".into(), b"application/x-www-form-urlencoded".to_vec()));
+                plan.signed.push("content-type".into());
+                plan.body = spelled.clone().into_bytes();
+                plan.body_params = Some(params);
+                cfg.fold = true;
+            } else {
+                plan.url_params = params;
+                plan.wire_query = Some(spelled.clone());
+            }
+            expect_accept(base_i + i, &plan, cfg, st, "I");
+            st.nontrivial(&(v, carrier, in_body, literal, "literal-equals"));
+        });
+        st = st.merge(st_i);
+        base += n_i;
+    }
+
     Report {
         stats: st,
         rule: format!(
-            "requests signed by the independent reference signer from decoded data, then spelled on the wire: (A) every path of <= {} segments over {} segment values x trailing slash x {} spellings per segment x carrier x {{standard,S3}}; (B) every list of <= {} parameters over {} names x {} values, full product of {} spellings per element for <= 2 parameters and one element at a time above, x carrier; (C) 13 header sets (incl. names that are prefixes of one another, an HTTP-date or a stale ISO Date header next to X-Amz-Date, Expires / X-Amz-Expires / Content-Length bystanders) x 6 Authorization parameter orders x 4 separators x 2 leads x 3 name cases x X-Amz-Date/Date x extras signed or not; (D) 6 bodies x 5 content types x {{default, S3, fold, S3+fold}} x carrier x 4 tokens (incl. the empty one) x 6 methods x URL parameters; (E) 9 clock offsets in [-15min,+15min] incl. +-1ns from the bounds x 4 server instants x 6 date renderings x carrier; (F) 1440 rich combinations; (G) scale: 21-300 parameters over 1/3/16 names, 30 signed headers, one header with 30 values, 4 kB header and 9 kB query values with a 300 kB body, 60 path segments, a folded form of 120 parameters — each 8 times through fresh maps, both carriers; (H) 15 secrets of special shape (beginning with the literals 'AWS4' / 'aws4_request' / 'AWS4AWS4', one character, blanks, '/', '+', '=', a line end, non-ASCII, a byte-order mark, 100 characters) x carrier x token, keys handed out by a database that derives them through the crate's own key types. Every second case is preceded, on the same thread, by one of 7 refused requests (bad escapes half-way through a query key / value / path / form body, wrong signature, expired) so that acceptance is also checked from non-initial states. Oracle: accepted (the provider bookkeeping is C03/C14's subject and is not judged here). states = distinct reference canonical requests; non-trivial = distinct (wire request, options, clock)",
+            "requests signed by the independent reference signer from decoded data, then spelled on the wire: (A) every path of <= {} segments over {} segment values x trailing slash x {} spellings per segment x carrier x {{standard,S3}}; (B) every list of <= {} parameters over {} names x {} values, full product of {} spellings per element for <= 2 parameters and one element at a time above, x carrier; (C) 13 header sets (incl. names that are prefixes of one another, an HTTP-date or a stale ISO Date header next to X-Amz-Date, Expires / X-Amz-Expires / Content-Length bystanders) x 6 Authorization parameter orders x 4 separators x 2 leads x 3 name cases x X-Amz-Date/Date x extras signed or not; (D) 6 bodies x 5 content types x {{default, S3, fold, S3+fold}} x carrier x 4 tokens (incl. the empty one) x 6 methods x URL parameters; (E) 9 clock offsets in [-15min,+15min] incl. +-1ns from the bounds x 4 server instants x 6 date renderings x carrier; (F) 1440 rich combinations; (G) scale: 21-300 parameters over 1/3/16 names, 30 signed headers, one header with 30 values, 4 kB header and 9 kB query values with a 300 kB body, 60 path segments, a folded form of 120 parameters — each 8 times through fresh maps, both carriers; (H) 15 secrets of special shape (beginning with the literals 'AWS4' / 'aws4_request' / 'AWS4AWS4', one character, blanks, '/', '+', '=', a line end, non-ASCII, a byte-order mark, 100 characters) x carrier x token, keys handed out by a database that derives them through the crate's own key types; (I) 11 values containing literal, unescaped '=' (base64 padding, k=v filters, a lone '=') in the URL and in a folded form body, literal and escaped spelling, both carriers. Every second case is preceded, on the same thread, by one of 7 refused requests (bad escapes half-way through a query key / value / path / form body, wrong signature, expired) so that acceptance is also checked from non-initial states. Oracle: accepted (the provider bookkeeping is C03/C14's subject and is not judged here). states = distinct reference canonical requests; non-trivial = distinct (wire request, options, clock)",
             nseg, SEGS.len(), NSPELL, nq, QNAMES.len(), QVALUES.len(), NSPELL
         ),
         bounds: json!({"path_segments": nseg, "query_params": nq, "cases_enumerated": base}),
